@@ -63,7 +63,8 @@ def one_case(rng, tier):
             sched.append([rng.choice([1.5, 2.5, 3.0]), nm])
         return {'kind': 'filenames', 'schedule': sched, 'glob': rng.random() < 0.5, 'poll': 1.0,
                 # how the directory / pattern is spelled: 'dir', 'dir/' (trailing separator), 'dir/*.dat', 'dir/???.dat'
-                'path_form': rng.choice(['dir', 'dir_slash', 'glob', 'glob_q']),
+                # 'glob_sub': the matches lie in several sub-directories ('dir/*/*.dat'): sorted means sorted as paths
+                'path_form': rng.choice(['dir', 'dir_slash', 'glob', 'glob_q', 'glob_sub']),
                 'second_watcher': rng.random() < 0.3,
                 'preexisting': rng.randrange(0, 3),
                 # the consumer stops the source while a batch is being delivered and it is started again later
@@ -217,10 +218,20 @@ def check_case(case, counters, sets):
                 else:
                     form = case.get('path_form') or ('glob' if case['glob'] else 'dir')
                     pat = {'glob': os.path.join(tmp, '*.dat'), 'dir': tmp, 'dir_slash': tmp + os.path.sep,
-                           'glob_q': os.path.join(tmp, '???.dat')}[form]
+                           'glob_q': os.path.join(tmp, '???.dat'), 'glob_sub': os.path.join(tmp, '*', '*.dat')}[form]
                     sets.setdefault('filenames_path_forms', set()).add(form)
+
+                    def loc(nm):
+                        # where a name lives, relative to the watched directory
+                        if form != 'glob_sub':
+                            return nm
+                        import zlib
+                        return os.path.join('cba'[zlib.crc32(nm.encode()) % 3], nm)
+                    if form == 'glob_sub':
+                        for sub in 'abc':
+                            os.mkdir(os.path.join(tmp, sub))
                     for i in range(case['preexisting']):
-                        open(os.path.join(tmp, 'p%02d.dat' % i), 'w').close()
+                        open(os.path.join(tmp, loc('p%02d.dat' % i)), 'w').close()
                     cycles = {'n': 0}
                     src = Stream.filenames(pat, poll_interval=case['poll'], asynchronous=True)
                     orig = src._run
@@ -230,7 +241,7 @@ def check_case(case, counters, sets):
                         await orig()
                     src._run = cyc
                     def on_file(x):
-                        got.append((cycles['n'], os.path.basename(x)))
+                        got.append((cycles['n'], os.path.relpath(x, tmp)))
                         if case.get('stop_on_delivery') is not None and len(got) - 1 == case['stop_on_delivery']:
                             src.stop()
                             counters['filenames_stopped_mid_batch'] = counters.get('filenames_stopped_mid_batch', 0) + 1
@@ -246,13 +257,13 @@ def check_case(case, counters, sets):
                         ent = todo.pop(0)
                         nm = ent[1]
                         if len(ent) > 2 and ent[2] == 'link':
-                            os.symlink(os.path.join(tmp, 'target-that-does-not-exist'), os.path.join(tmp, nm))
+                            os.symlink(os.path.join(tmp, 'target-that-does-not-exist'), os.path.join(tmp, loc(nm)))
                             counters['filenames_dangling_links'] = counters.get('filenames_dangling_links', 0) + 1
                         elif len(ent) > 2:
-                            os.remove(os.path.join(tmp, nm))
+                            os.remove(os.path.join(tmp, loc(nm)))
                             counters['filenames_paths_removed_and_recreated'] = counters.get('filenames_paths_removed_and_recreated', 0) + 1
                         else:
-                            open(os.path.join(tmp, nm), 'w').close()
+                            open(os.path.join(tmp, loc(nm)), 'w').close()
                         if todo:
                             loop.call_later(todo[0][0], mk)
                     if todo:
@@ -267,18 +278,19 @@ def check_case(case, counters, sets):
                         # emits every path that exists
                         got2 = []
                         src2 = Stream.filenames(pat, poll_interval=case['poll'], asynchronous=True)
-                        src2.sink(lambda x: got2.append(os.path.basename(x)))
+                        src2.sink(lambda x: got2.append(os.path.relpath(x, tmp)))
                         src2.start()
                         loop.drive(until_vt=loop.time() + 2 * case['poll'] + 0.5, max_iters=50000)
                         src2.stop()
                         loop.drive(until_vt=loop.time() + case['poll'] + 0.5, max_iters=20000)
-                        on_disk = sorted(os.listdir(tmp))
+                        on_disk = sorted(os.listdir(tmp)) if form != 'glob_sub' else sorted(
+                            os.path.join(sub, f) for sub in 'abc' for f in os.listdir(os.path.join(tmp, sub)))
                         counters['filenames_second_watchers'] = counters.get('filenames_second_watchers', 0) + 1
                         if sorted(got2) != on_disk:
                             add('C17:path-missing@filenames-second-source', 'a second source over the same directory emitted %s; the '
                                 'directory holds %s' % (sorted(got2), on_disk))
                     names = [n for _, n in got]
-                    expected = sorted(set(['p%02d.dat' % i for i in range(case['preexisting'])] + [s[1] for s in case['schedule']]))
+                    expected = sorted(set([loc('p%02d.dat' % i) for i in range(case['preexisting'])] + [loc(s[1]) for s in case['schedule']]))
                     if sorted(names) != expected:
                         if len(names) > len(set(names)):
                             add('C17:path-emitted-twice@filenames', 'created %s, emitted %s' % (expected, names))
